@@ -142,6 +142,11 @@ RpcChannel::~RpcChannel() {
 }
 
 void RpcChannel::DescriptorReady() {
+  if (!m_descriptor) {
+    // a failed send released the descriptor
+    return;
+  }
+
   if (!m_expected_size) {
     // this is a new msg
     unsigned int version;
@@ -179,10 +184,6 @@ void RpcChannel::DescriptorReady() {
       m_descriptor->Close();
       return;
     }
-  }
-
-  if (!m_descriptor) {
-    return;
   }
 
   unsigned int data_read;
